@@ -314,12 +314,14 @@ class Model:
             if self.kind == "ARRAY":
                 unset = len(vals) < n
                 if dup:
-                    return ([F], "dup-with-unset" if unset else "dup")
+                    # with unset slots both FALSE (ISO 10303-11 15.29 tests duplicates first) and UNKNOWN (the run-time's
+                    # documented reading: indeterminate items dominate) are defensible; only a TRUE would be wrong
+                    return ([F, U], "dup-with-unset") if unset else ([F], "dup")
                 return ([U], "unset") if unset else ([T], "all-distinct")
             if self.kind == "LIST":
                 strict = self.hi is not None and self.lo == 1 and len(vals) == self.hi
                 if dup:
-                    return ([F], "dup" if strict else "dup-partly-filled")
+                    return ([F], "dup") if strict else ([F, U], "dup-partly-filled")
                 return ([T], "all-distinct") if strict else ([T, U], "all-distinct")
             if dup:
                 return ([F], "dup")
@@ -945,6 +947,12 @@ class C19(CheckBase):
                 "nontrivial": acc_mut >= 1 and (refused >= 1 or queries >= 1),
                 "probes": probes, "faults": {},
                 "state": core.hash_obj([plan["kind"], plan["lo"], plan["hi"], m.state()])}
+
+    def plan_features(self, plan):
+        f = ["kind:" + plan["kind"], "bounded" if plan["hi"] is not None else "unbounded"]
+        if plan["kind"] in ("BAG", "SET") and plan["hi"] is not None and plan["lo"] != 1:
+            f.append("bag-or-set-lower-bound-not-1")
+        return f
 
     def sample(self, plan, obs):
         s = {k: plan[k] for k in ("kind", "lo", "hi", "base", "unique", "optional")}
